@@ -50,6 +50,24 @@ def gen(rng):
             blocks.append(b)
         if generic_const:
             break
+    nested_self = None
+    if generic_const and rng.random() < 0.6:
+        # a member for one concrete const argument nested under the family of the generic one
+        used_groups = {bd[2].get('G') for b in blocks for bd in b.bounds}
+        free = [x for x in gp.GROUPS if x not in used_groups] or gp.GROUPS
+        used = [s_ for s_ in ['L0', 'T0', 'T1'] if '{%s}' % s_ in self_tmpl]
+        slots = gp.mk_slots(rng, used)
+        order = list(slots); rng.shuffle(order)
+        order = [x for x in order if x[0] == 'L'] + [x for x in order if x[0] != 'L']
+        blocks.append(gp.Block({x: slots[x] for x in order}, None, self_tmpl.replace('{C}', '12'), [('{T0}', tr, {'G': free[0]}, 'where')], 'bn'))
+    if sk == 'w4' and rng.random() < 0.6:
+        # a nested member: a more specific self type re-expressing the family's key
+        used_groups = {bd[2].get('G') for b in blocks for bd in b.bounds}
+        free = [x for x in gp.GROUPS if x not in used_groups] or gp.GROUPS
+        slots = gp.mk_slots(rng, ['T0', 'T1'])
+        order = list(slots); rng.shuffle(order)
+        nested_self = 'Wr<Vec<{T0}>, {T1}>'
+        blocks.append(gp.Block({x: slots[x] for x in order}, None, nested_self, [('Vec<{T0}>', tr, {'G': free[0]}, 'where')], 'bn'))
     rng.shuffle(blocks)
     for i, b in enumerate(blocks):
         b.tag = 'b%d' % i
@@ -65,10 +83,14 @@ def gen(rng):
                 probes.append(self_tmpl.replace('{C}', cv).format(L0="'static", T0=a, T1=b2))
     rng.shuffle(probes)
     c.probes = probes[:8]
+    if nested_self:
+        c.probes = c.probes[:6] + [nested_self.format(T0=a, T1=b2) for a in atoms[:2] for b2 in atoms[:1]]
     world = {}
     for a in atoms:
         world[(a, tr)] = {x: rng.choice(gp.GROUPS) for x in gp.TRAITS[tr]} if rng.random() < 0.85 else None
         world[(a, 'D')] = world.get((a, 'D')) or ({'G': rng.choice(gp.GROUPS)} if rng.random() < 0.8 else None)
+        if nested_self:
+            world[('Vec<%s>' % a, tr)] = {x: rng.choice(gp.GROUPS) for x in gp.TRAITS[tr]} if rng.random() < 0.9 else None
     c.world = world
     return c
 
@@ -138,6 +160,9 @@ def core(rng, n):
     for f in sorted(os.listdir(cdir)) if os.path.isdir(cdir) else []:
         src = open(os.path.join(cdir, f)).read()
         r = rc.compile_run(src, run=False)
+        if not f.endswith('_must_not_compile.rs') and not r['ok']:
+            corpus_violations.append(dict(kind='property', request='corpus/C17/' + f, program=src, errors=r['errors'][:4],
+                                          oracle='a corpus program of a fixed inherent-mode finding no longer compiles: %s' % r['errors'][:2]))
         if f.endswith('_must_not_compile.rs') and r['ok']:
             corpus_violations.append(dict(kind='property', request='corpus/C17/' + f, program=src, oracle='fixed finding F7 is back: inherent blocks disagreeing on an item\'s visibility are accepted (a private item becomes reachable from outside the module)'))
     shadow = rc.compile_many([shadow_program(c) for c in cases])
